@@ -758,6 +758,10 @@ func TestManagerFixed(t *testing.T) {
 	vh.Fixed(t, prop, "manager/kill-and-cleanup-while-another-environment-starts-up", MCase{HoldRun: true, HoldKilled: true, Ops: []MOp{
 		{Kind: "acquire", Hosts: 0, FailBit: -1}, {Kind: "status"}, {Kind: "acquire", Hosts: 5, FailBit: -1},
 		{Kind: "teardown", Env: 0}, {Kind: "status"}, {Kind: "cleanup"}, {Kind: "status"}, {Kind: "status"}, {Kind: "kill", Listed: 1023}}}, runManager)
+	// an environment is deployed while the KILL call of another one's teardown is pending; the call then fails
+	vh.Fixed(t, prop, "manager/deployment-completes-while-a-kill-call-is-pending-which-then-fails", MCase{HoldKills: true, HoldKilled: true, Ops: []MOp{
+		{Kind: "acquire", Hosts: 0, FailBit: -1}, {Kind: "teardown", Env: 0, Async: true}, {Kind: "acquire", Hosts: 5, FailBit: -1}, {Kind: "open", Refuse: true}, {Kind: "reconcile", Listed: 1023},
+		{Kind: "open"}, {Kind: "open"}, {Kind: "status"}, {Kind: "status"}}}, runManager)
 	// reconciliation answers (after a re-subscription) for tasks of live environments, one of which has not reported TASK_RUNNING yet
 	vh.Fixed(t, prop, "manager/reconciliation-answers-for-owned-tasks-running-and-starting-up", MCase{HoldRun: true, Ops: []MOp{
 		{Kind: "acquire", Hosts: 0, FailBit: -1}, {Kind: "status"}, {Kind: "acquire", Hosts: 5, FailBit: -1}, {Kind: "reconcile", Listed: 1023}, {Kind: "status"}, {Kind: "status"},
